@@ -511,6 +511,15 @@ def run(ctx):
         _c17.run(_Sub19(ctx, 'C19.1-call-table-untouched', 'c17', allow=('C17.4-table-accessors', 'C17.2-fresh-key')))
 
     # "exactly that recipient": the tables are keyed by pid, so what a pid IS (node, id, serial, creation) decides who gets the message
+    # REG_SEND goes to whoever holds the name: the name table is the registry's
+    ctx.rule('C19.1-name-table', 'a message to a registered name reaches the process that registered it: a name is never overwritten, the names of a process leave the table when (and only when) that process goes, '
+             'and tables that index the same registrations stay in step (rules C18.2-vacant-insert, C18.1-exit-cleans-registry, C18.2-paired-indexes re-run): a refused registration that leaves a trace '
+             'takes the name away from its live owner when the refused process exits', floor=3)
+    from ..order import SubCtx as _Sub19n
+    from . import c18 as _c18_19
+    if type(ctx).__name__ != 'SubCtx':
+        _c18_19.run(_Sub19n(ctx, 'C19.1-name-table', 'c18', allow=('C18.2-vacant-insert', 'C18.1-exit-cleans-registry', 'C18.2-paired-indexes')))
+
     ctx.rule('C19.1-recipient-identity', 'equality, hash and order of the identifier types read all their logical fields - creation included (rule C10.3-logical-fields re-run): '
              'a pid of an earlier incarnation of the node (same id and serial, other creation) must not resolve to a live process', floor=9)
     from ..order import SubCtx as _SubRI
